@@ -298,6 +298,22 @@ fn gen_c12(ch: &mut Chunker, r: &mut Rng, thorough: bool, scale: usize) {
         rec_break(ch, &s, 1, false);
         rec_break(ch, &s, 3, false);
     }
+    // unusual but terminated OSC payloads inside a word: runs of ESC before the terminator, ESC + multi-byte + backslash
+    for k in 0..5 {
+        let run = "\u{1b}".repeat(k);
+        for payload in [format!("0;t{}", run), format!("{}\u{e9}\\x", run), format!("8;;u-v{}", run)] {
+            for term in ["\u{1b}\\", "\u{7}"] {
+                for tail in ["abcdef", "\u{4f60}\u{597d}", "a-b", ""] {
+                    let w = format!("x\u{1b}]{}{}{}", payload, term, tail);
+                    for lim in 0..4 {
+                        rec_break(ch, &w, lim, lim % 2 == 0);
+                    }
+                    rec_split(ch, &w, Splitter::Hyphen);
+                    rec_split(ch, &w, Splitter::Every2);
+                }
+            }
+        }
+    }
     let cfgs = [TextCfg { ansi: Ansi::WellFormed, ..TC_PLAIN }, TextCfg { ansi: Ansi::Any, ctrl: true, ..TC_PLAIN }, TC_PLAIN];
     for i in 0..1500 * scale {
         let s = match i % 4 {
